@@ -375,40 +375,3 @@ pub fn joint_names(p: &str) -> Vec<String> {
     out.dedup();
     out
 }
-
-/// A name from the language of a parsed glob: wildcards and sets are filled
-/// from a small alphabet that contains multi-byte characters (a '?' stands for
-/// one character, not one byte).
-pub fn sample_glob(r: &mut crate::rng::Rng, toks: &[GTok]) -> String {
-    const ANY: [char; 12] = ['a', 'b', 'q', 'Z', '0', '5', '-', '.', '\u{e9}', '\u{20ac}', 'x', '\u{1f600}'];
-    let mut s = String::new();
-    for t in toks {
-        match t {
-            GTok::Lit(c) => s.push(*c),
-            GTok::Any => s.push(*r.pick(&ANY)),
-            GTok::Star => {
-                for _ in 0..r.below(4) {
-                    s.push(*r.pick(&ANY));
-                }
-            }
-            GTok::Set { neg, items } => {
-                if *neg {
-                    let mut c = '#';
-                    for _ in 0..8 {
-                        let k = *r.pick(&ANY);
-                        if !items.iter().any(|(a, b)| *a <= k && k <= *b) {
-                            c = k;
-                            break;
-                        }
-                    }
-                    s.push(c);
-                } else {
-                    let (a, b) = *r.pick(items);
-                    let span = (b as u32 - a as u32) as usize;
-                    s.push(char::from_u32(a as u32 + r.below(span + 1) as u32).unwrap_or(a));
-                }
-            }
-        }
-    }
-    s
-}
